@@ -28,6 +28,7 @@ type params struct {
 	F        int
 	P        int
 	Refuse   bool // broker refuses the resume of the first stream (non-conflict code)
+	CloseRefused bool // (with Refuse) the close request the library sends for the refused stream is refused as well (the broker does not know the stream)
 	NoClose   bool // (with Refuse) the close request the library sends for the refused stream is never answered
 	ResumeScope bool // schedule deviations in the stream supervisors' resume step (a second outage falls into it)
 	OpenScope bool // schedule deviations in the open calls themselves (between the open response and the subscriptions)
@@ -50,6 +51,9 @@ func (p params) name() string {
 	}
 	if p.During {
 		return fmt.Sprintf("%s/%s/F%d/P%d/during-outage", p.Streams, p.InFlight, p.F, p.P)
+	}
+	if p.CloseRefused {
+		return fmt.Sprintf("%s/%s/F%d/P%d/refuse%v/closerefused", p.Streams, p.InFlight, p.F, p.P, p.Refuse)
 	}
 	if p.NoClose {
 		return fmt.Sprintf("%s/%s/F%d/P%d/refuse%v/noclose", p.Streams, p.InFlight, p.F, p.P, p.Refuse)
@@ -90,6 +94,8 @@ func scenarios(tier string) []vlib.Scenario {
 	add(params{Kind: "e", Streams: "up+down", InFlight: "none", F: 1, Conflict: true})
 	add(params{Kind: "e", Streams: "upR+upU", InFlight: "none", F: 1, Conflict: true})
 	add(params{Kind: "e", Streams: "upR+upU", InFlight: "none", F: 1, Refuse: true})
+	add(params{Kind: "e", Streams: "up+down", InFlight: "none", F: 1, Refuse: true, CloseRefused: true})
+	add(params{Kind: "e", Streams: "down", InFlight: "none", F: 1, Refuse: true, CloseRefused: true})
 	add(params{Kind: "e", Streams: "up+down", InFlight: "none", F: 1, Refuse: true, NoClose: true})
 	add(params{Kind: "e", Streams: "down", InFlight: "none", F: 1, Refuse: true, NoClose: true})
 	add(params{Kind: "e", Streams: "upR+upU", InFlight: "none", F: 1, Refuse: true, Zero: true})
@@ -278,6 +284,22 @@ func (w *world) script() *sim.Script {
 			return false, 0
 		}
 		return true, 0
+	}
+	if w.p.CloseRefused {
+		s.OnMessage = func(b *sim.Broker, c *sim.BConn, m message.Message) bool {
+			if c.Idx == 0 || w.Phase == "close" {
+				return false
+			}
+			switch m := m.(type) {
+			case *message.UpstreamCloseRequest:
+				b.Send(c, &message.UpstreamCloseResponse{RequestID: m.RequestID, ResultCode: message.ResultCodeStreamNotFound, ResultString: "unknown stream"})
+				return true
+			case *message.DownstreamCloseRequest:
+				b.Send(c, &message.DownstreamCloseResponse{RequestID: m.RequestID, ResultCode: message.ResultCodeStreamNotFound, ResultString: "unknown stream"})
+				return true
+			}
+			return false
+		}
 	}
 	if w.p.NoClose {
 		s.OnMessage = func(b *sim.Broker, c *sim.BConn, m message.Message) bool {
